@@ -197,6 +197,14 @@ func (c *Check) tlvExactFit(rule, fnName string, bParam int, inner string, typeO
 		if to != cursor.Block() {
 			return
 		}
+		// the element looked at first is the one that fills the block; what
+		// later iterations see is kept apart (a loop that tests its condition
+		// at the head comes back here with nothing left)
+		if to.Dominates(from) {
+			st.tags["first"] = 0
+			return
+		}
+		st.tags["first"] = 1
 		lenByte := mk("ld", types.Typ[types.Uint8], "@"+st.ver["E:*uint8"], 0, mkIndexAddr(leaf, mkConst(1, intT), nil))
 		d := st.linOf(mkLen(leaf)).add(linConst(2), -1).add(st.linOf(lenByte), -1)
 		st.addFact(Fact{L: d})
@@ -229,7 +237,7 @@ func (c *Check) tlvExactFit(rule, fnName string, bParam int, inner string, typeO
 		for _, rs := range p.errReturns(a) {
 			if isAccept(rs) {
 				acc++
-			} else {
+			} else if rs.rs.State.tags["first"] == 1 {
 				rej++
 			}
 		}
